@@ -57,6 +57,13 @@ def generate(seed, tier):
         for f in frags:
             if f['defect'] in (None, 'r2unmapped', 'orphan_r1', 'qcfail'):
                 f['defect'] = 'single'
+    if len(genome) >= 2 and frags and w.random() < 0.3:
+        # discordant pairs: read 2 aligned to another contig (both mates present, but never delivered by the same fetch)
+        ok = [f for f in frags if f.get('defect') is None and not f.get('extra')]
+        for f in w.sample(ok, min(len(ok), w.randint(1, 4))):
+            c2 = w.choice([i for i in range(len(genome)) if i != f['ctg']])
+            f['discordant'] = {'ctg': c2, 'pos': w.randint(0, max(0, genome[c2][1] - f['rl'] - 1))}
+            f.pop('r2cig', None)
     force_nr = False
     if method != 'qflag' and w.random() < 0.25 and frags:
         # a job whose LAST task writes nothing: the last small contig (header order) holds only rejected fragments
@@ -89,7 +96,7 @@ def generate(seed, tier):
             f['clip'] = 0
     params = {'method': method, 'encoded': w.random() < 0.7, 'lib': w.choice(['LIB', 'my-lib_1']),
               # state of the input's index when the tagger starts: fresh, missing, or left over from an earlier version of the file (N seconds older)
-              'index_state': weighted(w, [(None, 6), (['missing'], 1), (['stale', w.choice([1, 5, 30, 59, 61, 3600])], 2), (['stale-empty', w.choice([1, 30, 3600])], 1)]),
+              'index_state': weighted(w, [(None, 6), (['missing'], 1), (['stale', w.choice([1, 5, 30, 59, 61, 3600])], 2), (['stale-empty', w.choice([1, 30, 3600])], 1), (['no-unplaced-count'], 1)]),
               # read groups the input header already declares
               'header_rgs': weighted(w, [(None, 6), ('subset', 2), ('all', 1), ('other', 1)])}
     s = st.schedule
@@ -159,7 +166,9 @@ def execute(case):
         if any(f.get('defect') == 'placed_unmapped' for f in case['workload']):
             probe('contig_with_only_placed_unmapped_reads')
         invalid_ids = {f['n'] for f in case['workload'] if lib.invalid_for(f, p['method'])}
-        halfmapped_r2 = {f['n'] for f in case['workload'] if f.get('defect') == 'r2unmapped'}
+        halfmapped_r2 = {f['n'] for f in case['workload'] if f.get('defect') == 'r2unmapped' or f.get('discordant')}
+        if any(f.get('discordant') for f in case['workload']):
+            probe('discordant_pair')
         if invalid_ids:
             probe('invalid_fragment_present')
         outs = {}
